@@ -70,8 +70,10 @@ def n_points(spec):
     raise ValueError(fam)
 
 
-def build(spec, requires_grad=True):
-    """-> (dist, param tensor, list of point tensors in index order)"""
+def build(spec, requires_grad=True, layout="event"):
+    """-> (dist, param tensor, list of point tensors in index order).  layout "batch" (Bernoulli
+    families only): a plain `Bernoulli(theta)` with batch shape (n,) and no event axis - n independent
+    one-variable problems run side by side (the estimators then return a vector)"""
     import torch
     fam = spec["fam"]
     th = spec["theta"]
@@ -83,7 +85,7 @@ def build(spec, requires_grad=True):
     kw = {spec["param"]: param}
     D = torch.distributions
     if fam == "bern":
-        dist = D.Independent(D.Bernoulli(**kw), 1)
+        dist = D.Bernoulli(**kw) if layout == "batch" else D.Independent(D.Bernoulli(**kw), 1)
         n = len(th)
         pts = [torch.tensor([float((i >> j) & 1) for j in range(n)], dtype=torch.float64)
                for i in range(2 ** n)]
@@ -119,6 +121,43 @@ def index_fn(spec):
         V = len(spec["theta"][0])
         return lambda b: b[..., 0].long() * V + b[..., 1].long()
     raise ValueError(fam)
+
+
+def coord_value(spec, i, j):
+    """coordinate j of point i of a family whose samples are float vectors (bern: bit j; onehot:
+    indicator of class j)"""
+    if spec["fam"] == "bern":
+        return (i >> j) & 1
+    if spec["fam"] == "onehot":
+        return 1 if i == j else 0
+    raise ValueError(spec["fam"])
+
+
+def n_coords(spec):
+    """length of the event axis of a float-vector family, None for integer-valued samples"""
+    return len(spec["theta"]) if spec["fam"] in ("bern", "onehot") else None
+
+
+def element(spec, j):
+    """the one-variable family of batch element j of a Bernoulli family in batch layout"""
+    return {"fam": "bern", "param": spec["param"], "theta": [spec["theta"][j]]}
+
+
+def batch_table_func(tables):
+    """batch layout: element j of the result is tables[j][b_j] (fresh tensor, no gradient)"""
+    import torch
+    T = torch.tensor([[float(F(x)) for x in row] for row in tables], dtype=torch.float64)
+    ar = torch.arange(T.shape[0])
+    return lambda b: T[ar, b.detach().long()]
+
+
+def project(t, j, n_bits=1):
+    """index (in the order of `tuples(2, N)`) of the projection of a tuple of points of {0,1}^n on
+    variable j"""
+    k = 0
+    for i in t:
+        k = 2 * k + ((i >> j) & 1)
+    return k
 
 
 def table_func(spec, table):
